@@ -536,7 +536,12 @@ def _shared(ctx, counts) -> list:
     from .c08_sequences import r08_4
     from .c11_datetime import r11_2
     from .c11_datetime import r11_8
-    return [r08_4(ctx, counts), r11_2(ctx, counts), r11_8(ctx, counts)]
+    # the operands of a comparison are promoted to xs:double with get_double / cast_to_double:
+    # what those build is a plain float, or two "doubles" compare with the xs:float tolerance
+    from .c18_seqtypes import r18_9
+    r9 = r18_9(ctx, counts)
+    r9.title = 'XS-DOUBLE-IS-PLAIN-FLOAT (R07.7 = R18.9: promoted operands compare exactly)'
+    return [r08_4(ctx, counts), r11_2(ctx, counts), r11_8(ctx, counts), r9]
 
 
 def r07_5(ctx, counts) -> RuleResult:
